@@ -79,3 +79,24 @@ pub fn diffy_roundtrip(req: &Value) -> Value {
         },
     }
 }
+
+/// pattern::build_pattern + find_matches on raw bytes
+pub fn find_matches(req: &Value) -> Value {
+    let content = hex_field(req, "content");
+    let empty = vec![];
+    let variants: Vec<String> = req["variants"].as_array().unwrap_or(&empty).iter()
+        .filter_map(|v| String::from_utf8(unhex(v.as_str().unwrap_or(""))).ok()).collect();
+    let pat = match renamify_core::pattern::build_pattern(&variants) {
+        Ok(p) => p,
+        Err(e) => return json!({"err": e.to_string()}),
+    };
+    let ms = renamify_core::pattern::find_matches(&pat, &content, "f");
+    json!({"ok": ms.iter().map(|m| json!([m.line, m.column, m.start, m.end, hex(&content[m.start..m.end])])).collect::<Vec<_>>()})
+}
+
+pub fn is_boundary(req: &Value) -> Value {
+    let content = hex_field(req, "content");
+    let a = req["start"].as_u64().unwrap_or(0) as usize;
+    let b = req["end"].as_u64().unwrap_or(0) as usize;
+    json!({"ok": renamify_core::pattern::is_boundary(&content, a, b)})
+}
